@@ -346,7 +346,7 @@ func (f *verifC46FakeRepo) LookupBlobSize(bh restic.BlobHandle) (uint, bool) {
 	return uint(len(b)), ok && bh.Type == restic.DataBlob
 }
 
-func (f *verifC46FakeRepo) LoadBlob(_ context.Context, bh restic.BlobHandle, _ []byte) ([]byte, error) {
+func (f *verifC46FakeRepo) LoadBlob(_ context.Context, bh restic.BlobHandle, buf []byte) ([]byte, error) {
 	b, ok := f.blobs[bh.ID]
 	if !ok {
 		return nil, fmt.Errorf("blob %v not found", bh.ID)
@@ -354,14 +354,28 @@ func (f *verifC46FakeRepo) LoadBlob(_ context.Context, bh restic.BlobHandle, _ [
 	f.mu.Lock()
 	f.loads++
 	f.mu.Unlock()
+	// like Repository.loadBlob: a caller's buffer that is large enough is used for the download
+	// (ciphertext first, while the transfer is in flight) and the plaintext is decrypted in place
+	need := len(b) + 16
+	reuse := cap(buf) >= need
+	if reuse {
+		buf = buf[:need]
+		for i := range buf {
+			buf[i] = 0xEE
+		}
+	}
 	if f.x != nil {
 		proc := f.x.ProcOfCaller()
 		if f.x.Gate(xplore.Event{Key: proc + ":load:" + f.label[bh.ID], Proc: proc, Kind: "load", Yield: true}) < 0 {
 			return nil, fmt.Errorf("execution torn down")
 		}
 	}
-	// like the repository: a fresh buffer with some spare capacity
-	out := make([]byte, len(b), len(b)+16)
+	if reuse {
+		copy(buf, b)
+		return buf[:len(b)], nil
+	}
+	// a fresh buffer with some spare capacity
+	out := make([]byte, len(b), need)
 	copy(out, b)
 	return out, nil
 }
